@@ -46,7 +46,13 @@ func TestVerif_C07_h2databuf(t *testing.T) {
 	payload := make([]byte, 70000)
 	sink := make([]byte, 70000)
 	nseq := verifh.N(40, 1500)
+	violated := false
 	for _, e := range expecteds {
+		if violated && e > 1<<20 {
+			// the buffer already followed a smaller announcement: no escalation to sizes that end the process
+			s.Count("skipped-after-violation")
+			continue
+		}
 		for q := 0; q < nseq; q++ {
 			k := 1 + r.Intn(10)
 			var ops, states []string
@@ -90,6 +96,7 @@ func TestVerif_C07_h2databuf(t *testing.T) {
 			if why != "" {
 				human += " -> " + why
 				s.Count("over-budget")
+				violated = true
 			}
 			s.Count("sequences")
 			s.Case(line, strings.Join(states, ";"), why == "", "", true, human)
